@@ -394,10 +394,12 @@ def gen_parse(rng, cfg):
     nonascii = any(isinstance(n, str) and not n.isascii() for n in cfg['nodes'])
     op['encoding'] = rng.choice(['utf-8', 'latin-1', 'cp1252'] if nonascii else ENCODINGS)
     op['conv'] = rng.choice(['int', 'int', 'lookup', 'fraction'])
+    if op['nodekind'] == 'int' and rng.random() < 0.2:
+        op['nodetype_str'] = True                 # the same digit labels, this time read as strings
     x = rng.random()
     if x < 0.15:
         op['bad_row'] = rng.randrange(len(rows))
-        op['bad_field'] = rng.choice(['node', 'node2', 'time', 'end', 'end'] if op['nodekind'] == 'int' else ['time', 'end'])
+        op['bad_field'] = rng.choice(['node', 'node2', 'time', 'end', 'end'] if op['nodekind'] == 'int' and not op.get('nodetype_str') else ['time', 'end'])
     elif x < 0.4:
         op['keys'] = True
         op['via'] = 'read'
